@@ -10,7 +10,7 @@ from hypothesis import strategies as st
 from mzverif import gen as G
 from mzverif import lib as L
 from mzverif import model as M
-from mzverif.core import Sub, call, require
+from mzverif.core import Sub, call, require, scribble
 
 ID = "C13"
 LEVEL = "exploration"
@@ -54,11 +54,14 @@ def _check_graph(g, cells, pairs, paths, np_seed, sig="C13"):
     # neighbours / components
     for k, u in enumerate(cells):
         arg = (np.array(u) if k % 4 == 0 else np.array(u, dtype=np.int8)) if k % 2 == 0 else tuple(u)
-        nb = call(f"{sig}:get_coord_neighbors", m.get_coord_neighbors, arg)
-        nb = L.as_cells(nb)
+        nb_raw = call(f"{sig}:get_coord_neighbors", m.get_coord_neighbors, arg)
+        nb = L.as_cells(nb_raw)
+        scribble(nb_raw)
         require(len(nb) == len(set(nb)) and set(nb) == set(a[tuple(u)]), f"{sig}:get_coord_neighbors", f"{u}: got {nb}, model {sorted(a[tuple(u)])}; bits={g['cl']} {r}x{c}")
         comp = call(f"{sig}:component", m.gen_connected_component_from, np.array(u, dtype=np.int8 if k % 3 == 1 else np.int64))
+        comp_raw = comp
         comp = L.as_cells(comp)
+        scribble(comp_raw)
         want = M.component(a, tuple(u))
         require(len(comp) == len(set(comp)) and set(comp) == want, f"{sig}:component", f"from {u}: got {len(comp)} cells, model {len(want)}; bits={g['cl']} {r}x{c}")
     # degrees
@@ -66,8 +69,15 @@ def _check_graph(g, cells, pairs, paths, np_seed, sig="C13"):
     require(tuple(np.asarray(deg).shape) == (r, c), f"{sig}:coord_degrees:shape", f"{np.asarray(deg).shape}")
     for (i, j), nbrs in a.items():
         require(int(deg[i, j]) == len(nbrs), f"{sig}:coord_degrees", f"cell {(i, j)}: got {int(deg[i, j])}, model {len(nbrs)}; bits={g['cl']} {r}x{c}")
+    scribble(deg)
+    deg2 = call(f"{sig}:coord_degrees", m.coord_degrees)
+    require(all(int(deg2[i, j]) == len(nbrs) for (i, j), nbrs in a.items()), f"{sig}:coord_degrees", "a second call (after the caller overwrote the first result) gives other degrees")
     # nodes
-    nodes = L.as_cells(call(f"{sig}:get_nodes", m.get_nodes))
+    nodes_raw = call(f"{sig}:get_nodes", m.get_nodes)
+    nodes = L.as_cells(nodes_raw)
+    scribble(nodes_raw)
+    nodes2 = L.as_cells(call(f"{sig}:get_nodes", m.get_nodes))
+    require(sorted(nodes2) == sorted(nodes), f"{sig}:get_nodes", "a second call (after the caller overwrote the first result) lists other cells")
     require(sorted(nodes) == sorted(a.keys()), f"{sig}:get_nodes", f"got {len(nodes)} nodes for {r}x{c}")
     # adjacency-list views
     from maze_dataset.token_utils import connection_list_to_adj_list, is_connection
